@@ -68,6 +68,7 @@ type Replay struct {
 	Decisions []int    `json:"decisions"`
 	Signature string   `json:"signature"`
 	Detail    string   `json:"detail,omitempty"`
+	FromSeed  bool     `json:"from_seed,omitempty"` // no decision list: the run is regenerated from (seed, run)
 	Minimised bool     `json:"minimised"`
 	OrigLen   int      `json:"orig_len,omitempty"`
 	Trace     []string `json:"trace,omitempty"`
@@ -214,11 +215,24 @@ func search(t *testing.T, h *Harness) {
 	sched := newHashSet(1 << 17)
 	logs := newHashSet(1 << 17)
 	start := time.Now()
+	// the index of the run in progress is kept in a side file: if the code under test aborts the whole process (fatal
+	// error: out of memory, concurrent map writes, ...) the runner can attribute the abort to that run and replay it
+	var progress *os.File
+	if p := os.Getenv("VERIF_OUT"); p != "" {
+		progress, _ = os.Create(p + ".progress")
+	}
 	for i := uint64(0); i < maxRuns; i++ {
-		if i&7 == 0 && time.Since(start) > budget {
+		if time.Since(start) > budget {
 			break
 		}
 		run := worker + i*workers
+		if progress != nil {
+			var buf [8]byte
+			for k := 0; k < 8; k++ {
+				buf[k] = byte(run >> (8 * k))
+			}
+			progress.WriteAt(buf[:], 0)
+		}
 		dec := NewSearch(seed, run)
 		res := RunOnce(t, h.Cfg, dec, h.Body)
 		out.Runs++
@@ -287,6 +301,10 @@ func search(t *testing.T, h *Harness) {
 			break // recycle the process: leaked goroutines accumulate
 		}
 	}
+	if progress != nil {
+		progress.Close()
+		os.Remove(progress.Name())
+	}
 	out.WallS = time.Since(start).Seconds()
 	out.HashBits = sched.bits
 	if logs.bits > out.HashBits {
@@ -342,7 +360,11 @@ func loadReplay() *Replay {
 // replay re-executes a replay file; writes {"signature":..., "log":...}.
 func replay(t *testing.T, h *Harness) {
 	rp := loadReplay()
-	res := RunOnce(t, withLog(h.Cfg), NewReplay(rp.Decisions), h.Body)
+	dec := NewReplay(rp.Decisions)
+	if rp.FromSeed {
+		dec = NewSearch(rp.Seed, rp.Run)
+	}
+	res := RunOnce(t, withLog(h.Cfg), dec, h.Body)
 	sig, detail := "", ""
 	if res.Failure != nil {
 		sig, detail = res.Failure.Signature(), res.Failure.Detail
